@@ -201,6 +201,9 @@ func haltCause(w *World, site string) string {
 	if site == "overflow" && acceptedOrdersOverflowSupply(w) {
 		return "/accepted-orders-exceed-256-bit-supply"
 	}
+	if site == "group-tally" && w.M != nil && len(w.M.Grp.Left) > 0 {
+		return "/group-left-by-its-members"
+	}
 	denom := w.M != nil && (w.M.Ent.Denom != w.T.Knobs.Ent.Denom || w.M.Ent.DenomChanged)
 	gov := govBelowDeposits(w) || govSpendingProposal(w)
 	// both circumstances may hold in one run (one proposal can change the denomination and pay out of
@@ -312,6 +315,8 @@ func haltSite(s string) string {
 		return "invariant-" + rest
 	}
 	switch {
+	case strings.Contains(s, "doTallyAndUpdate"):
+		return "group-tally"
 	case strings.Contains(s, "invalid coin denominations"):
 		return "coin-denominations"
 	case strings.Contains(s, "overflow"):
